@@ -16,7 +16,14 @@ import (
 	"strings"
 )
 
-const repo = "/repo"
+// repo is the tree that is instrumented: /repo, or a scratch copy named by VERIF_REPO (used to run
+// detection sweeps in parallel with other work)
+var repo = func() string {
+	if r := os.Getenv("VERIF_REPO"); r != "" {
+		return r
+	}
+	return "/repo"
+}()
 
 type rewrite struct {
 	name  string
